@@ -45,17 +45,25 @@ def cancellation_handlers(an: Analysis, functions=None) -> list[tuple[FunctionIn
     return out
 
 
+def _try_of(h: ast.ExceptHandler) -> ast.Try:
+    p = parent(h)
+    return p if isinstance(p, ast.Try) else ast.Try(body=[], handlers=[], orelse=[], finalbody=[])
+
+
 def swallowing(an: Analysis, fi: FunctionInfo, h: ast.ExceptHandler) -> list[tuple[str, object, list]]:
     g = an.cfg(fi)
     bad = []
     from ..kinds import classify_handler_for
 
+    # a synchronous callback is never what a task's cancellation is delivered to (that happens at an await): a CancelledError
+    # it catches is the *outcome* it read from a finished task / future; passing it on with <other future>.cancel() forwards it
+    relays = not fi.is_async and any(isinstance(n, ast.Call) and isinstance(n.func, ast.Attribute) and n.func.attr == "cancel" and not n.args for st in h.body for n in ast.walk(st)) and any(isinstance(n, ast.Call) and isinstance(n.func, ast.Attribute) and n.func.attr in ("result", "exception") for st in _try_of(h).body for n in ast.walk(st))
     for kind, node, path in classify_handler_for(g, h, "CancelledError"):
         if kind in ("reraise-same", "raise-from-cleanup"):
             continue
-        if kind == "swallow" and forwards_bound(h):
+        if kind == "swallow" and (forwards_bound(h) or relays):
             continue
-        if kind == "return" and forwards_bound(h):
+        if kind == "return" and (forwards_bound(h) or relays):
             continue
         bad.append((kind, node, path))
     return bad
